@@ -546,13 +546,13 @@ func padLeft(value, width, pad any) (any, error) {
 		}
 	}
 
-	if len(p) != 1 {
+	if utf8.RuneCountInString(p) != 1 {
 		return nil, &padLengthError{
 			pad: p,
 		}
 	}
 
-	n := w - len(s)
+	n := w - utf8.RuneCountInString(s)
 	if n <= 0 {
 		return value, nil
 	}
@@ -613,13 +613,13 @@ func padRight(value, width, pad any) (any, error) {
 		}
 	}
 
-	if len(p) != 1 {
+	if utf8.RuneCountInString(p) != 1 {
 		return nil, &padLengthError{
 			pad: p,
 		}
 	}
 
-	n := w - len(s)
+	n := w - utf8.RuneCountInString(s)
 	if n <= 0 {
 		return value, nil
 	}
@@ -672,7 +672,7 @@ func padSpaceLeft(value, width any) (any, error) {
 		}
 	}
 
-	n := w - len(s)
+	n := w - utf8.RuneCountInString(s)
 	if n <= 0 {
 		return value, nil
 	}
@@ -725,7 +725,7 @@ func padSpaceRight(value, width any) (any, error) {
 		}
 	}
 
-	n := w - len(s)
+	n := w - utf8.RuneCountInString(s)
 	if n <= 0 {
 		return value, nil
 	}
